@@ -696,3 +696,64 @@ M("c07-keyword-phase-skips-kwonly", "C07", ["C07.consume"],
   E(SIG, """            if param.kind == Parameter.VAR_POSITIONAL:
                 # Named arguments don't refer to '*args'-like parameters.""", """            if param.kind in (Parameter.VAR_POSITIONAL, Parameter.KEYWORD_ONLY):
                 # Named arguments don't refer to '*args'-like parameters."""))
+
+# ----------------------------------------------------------------------------------------- C08
+M("c08-gt-applies-ge", "C08", ["C08.optable"],
+  E(SP, "    ast.Gt: build_custom_operator(operator.gt),", "    ast.Gt: build_custom_operator(operator.ge),"))
+M("c08-and-built-by-or", "C08", ["C08.optable"],
+  E(SP, "    ast.And: custom_and,", "    ast.And: custom_or,"))
+M("c08-regex-no-lookahead", "C08", ["C08.regex"],
+  E(SP, 'pattern = re.compile(r"\\!(?!=)|\\^|\\bv\\b")', 'pattern = re.compile(r"\\!|\\^|\\bv\\b")'))
+M("c08-regex-no-word-boundary", "C08", ["C08.regex"],
+  E(SP, 'pattern = re.compile(r"\\!(?!=)|\\^|\\bv\\b")', 'pattern = re.compile(r"\\!(?!=)|\\^|v")'))
+M("c08-replacement-unpadded", "C08", ["C08.regex"],
+  E(SP, 'replacements = {"!": "not ", "^": " and ", "v": " or "}', 'replacements = {"!": "not ", "^": "and", "v": " or "}'))
+M("c08-replacement-swapped", "C08", ["C08.regex"],
+  E(SP, 'replacements = {"!": "not ", "^": " and ", "v": " or "}', 'replacements = {"!": "not ", "^": " or ", "v": " and "}'))
+M("c08-and-eager", "C08", ["C08.optable"],
+  E(SP, "        return left(*args, **kwargs) and right(*args, **kwargs)  # type: ignore[no-any-return]",
+    "        lv, rv = left(*args, **kwargs), right(*args, **kwargs)\n        return lv and rv"))
+M("c08-or-right-first", "C08", ["C08.optable"],
+  E(SP, "        return left(*args, **kwargs) or right(*args, **kwargs)  # type: ignore[no-any-return]",
+    "        return right(*args, **kwargs) or left(*args, **kwargs)"))
+M("c08-attr-read-at-build-time", "C08", ["C08.fresh"],
+  E(DISP, """    getter = attrgetter(attribute)
+
+    def method(*args, **kwargs):
+        return getter(obj)
+""", """    value = attrgetter(attribute)(obj)
+
+    def method(*args, **kwargs):
+        return value
+"""))
+M("c08-f7-reintroduced", "C08", ["C08.fast"],
+  E(SP, "    if expr.isidentifier() and not iskeyword(expr):", '    if "!" not in expr and " " not in expr:'), note="F7")
+M("c08-shortcut-takes-keywords", "C08", ["C08.fast"],
+  E(SP, "    if expr.isidentifier() and not iskeyword(expr):", "    if expr.isidentifier():"))
+M("c08-boolop-fold-reversed-args", "C08", ["C08.build"],
+  E(SP, "            left_expr = operator_fn(left_expr, right_expr)", "            left_expr = operator_fn(right_expr, left_expr)"))
+M("c08-compare-chain-keeps-first-left", "C08", ["C08.build"],
+  E(SP, "            left_expr = right_expr\n", ""), note="`a < b < c` becomes (a<b) and (a<c)")
+M("c08-compare-joined-by-or", "C08", ["C08.build"],
+  E(SP, "        return reduce(custom_and, expressions)", "        return reduce(custom_or, expressions)"))
+M("c08-syntaxerror-not-converted", "C08", ["C08.when"],
+  E(DISP, """        try:
+            expression = parse_boolean_expr(spec.func, take_callback_partial, operator_mapping)
+        except SyntaxError as err:
+            raise InvalidDefinition(
+                _("Failed to parse boolean expression '{}'").format(spec.func)
+            ) from err
+""", """        expression = parse_boolean_expr(spec.func, take_callback_partial, operator_mapping)
+"""))
+M("c08-missing-names-still-registered", "C08", ["C08.when"],
+  E(DISP, """        if not expression or names_not_found:
+            spec.names_not_found = names_not_found
+            return
+""", """        if not expression:
+            spec.names_not_found = names_not_found
+            return
+"""), note="unknown names silently become always-true")
+M("c08-comparator-args-swapped", "C08", ["C08.optable"],
+  E(SP, "            return bool(operator(left(*args, **kwargs), right(*args, **kwargs)))", "            return bool(operator(right(*args, **kwargs), left(*args, **kwargs)))"))
+M("c08-not-returns-operand", "C08", ["C08.optable"],
+  E(SP, "        return not predicate(*args, **kwargs)", "        return predicate(*args, **kwargs) is False"))
